@@ -865,11 +865,13 @@ class VSocket:
         addr = tuple(addr)
 
         def ok():
-            l = self.s.net.listeners.get(addr)
-            return l is not None and l.listening and not l.closed
+            # enabled once a listener exists: either it still listens (connection queued) or it has been closed (refused)
+            return self.s.net.listeners.get(addr) is not None
 
         def act():
             l = self.s.net.listeners[addr]
+            if l.closed or not l.listening:
+                raise ConnectionRefusedError(111, 'Connection refused')
             other = VSocket()
             other.peer, self.peer = self, other
             other.tag = self.tag
